@@ -223,7 +223,7 @@ func (self Value) list(opts *Options) ([]interface{}, error) {
 		return nil, it.Err
 	}
 	ret := make([]interface{}, 0, it.Size())
-	isPacked := self.Desc.IsPacked()
+	isPacked := it.IsPacked()
 
 	// read packed list tag and bytelen
 	if isPacked {
